@@ -96,7 +96,9 @@ enum FailClass : int {
   F_MISSING = 3,    // global or function without a value   (real: globalMissingValue / unknownError)
   F_OVERFLOW = 4,   // integer result outside int32         (real: signed overflow, a known defect)
   F_INTSET = 5,     // Z has no finite value                (real: ValueEID::iterateInfinity)
-  F_MALFORMED = 6   // tree is not a well-typed expression  (real: unknownError or undefined)
+  F_MALFORMED = 6,  // tree is not a well-typed expression  (real: unknownError or undefined)
+  F_DEPTH = 7       // R{..} builds ever deeper nested values, e.g. R{a:=∅ | {a}}, which the real
+                    // auditor accepts although the type of `a` never stabilises: inconclusive
 };
 
 struct DataEnv {
@@ -144,6 +146,7 @@ struct R {
 
 class Evaluator {
   static constexpr uint32_t MAX_CALL_DEPTH = 64;
+  static constexpr uint32_t MAX_NESTING = 16;  // of a value produced by a recursion step
 
   const DataEnv& env;
   const uint32_t setLimit;
@@ -345,6 +348,16 @@ private:
       }
     }
     return Fail(F_MALFORMED);
+  }
+
+  //! Nesting depth of v exceeds `bound` (never descends deeper than bound + 1 levels).
+  static bool DeeperThan(const Value& v, uint32_t bound) {
+    if (v.kind == Value::ELEM) return false;
+    if (bound == 0) return true;
+    for (const auto& item : v.items) {
+      if (DeeperThan(item, bound - 1)) return true;
+    }
+    return false;
   }
 
   //! Bind declaration `x` or tuple pattern `(x,(y,z))` to value v by projection.
@@ -613,6 +626,7 @@ private:
         }
         R next = EvVal(it.Child(full ? 3 : 2), &f);
         if (next.k == EvalResult::FAIL) return next;
+        if (DeeperThan(next.v, MAX_NESTING)) return Fail(F_DEPTH);
         if (Equal(next.v, cur.v)) return cur;
         cur = std::move(next);
       }
